@@ -5,7 +5,8 @@
 EXTENDS ProfTree, Json
 
 CONSTANTS ExportMod, ExportSeed
-MCFn == <<"f1", "f2">>
+MCFn2 == <<"f1", "f2">>
+MCFn3 == <<"f1", "f2", "f3">>
 
 RECURSIVE BagSeqOf(_, _)
 BagSeqOf(b, S) == IF S = {} THEN <<>>
